@@ -203,10 +203,13 @@ def g_forward_module(dim, mode, waveform, f1_region_excluded=True, canary=None):
                               'proved' if ok else 'refuted', 'structural', 0))
                 if ok:
                     obs += verify.value_equal(pid + '/INV-step[detail]', 'INV-step', lst.tail[0], whi, c.pc, mv)
+                    if verify.CFG['dtype']:
+                        obs += verify.dtype_obs(pid + '/INV-step', c, (newT, lst.tail[0]))
         ok = side.exit is not None and isinstance(out, tuple) and len(out) == 2 and out[0] is side.exit[0] \
             and out[1] is side.exit[1] and not out[1].tail
         obs.append(Ob(pid + '/POST[returns (A_J, [D_0..D_J-1])]', 'POST', 'proved' if ok else 'refuted', 'structural', 0))
         obs += solve.safety_obligations(pid, c, mv)
+        obs += verify.frame_obs(pid, c, (d['self'], d['x']))
     return obs, info
 
 
@@ -301,4 +304,5 @@ def g_inverse_module(dim, mode, waveform, f1_region_excluded=True):
         ok = side.exit is not None and out is side.exit[0]
         obs.append(Ob(pid + '/POST[returns R_0]', 'POST', 'proved' if ok else 'refuted', 'structural', 0))
         obs += solve.safety_obligations(pid, c, mv)
+        obs += verify.frame_obs(pid, c, (d['self'], d['yl']))
     return obs, info
